@@ -317,18 +317,6 @@ class Part(object):
         """
         measures = np.array([(m.start.t, m.end.t) for m in self.iter_all(Measure)])
 
-        # correct for anacrusis
-        divs_per_beat = self.inv_beat_map(
-            1 + self.beat_map(0)
-        )  # find the divs per beat in the first measure
-        if (
-            measures[0][1] - measures[0][0]
-            < self.time_signature_map(0)[0] * divs_per_beat
-        ):
-            measures[0][0] = (
-                measures[0][1] - self.time_signature_map(0)[0] * divs_per_beat
-            )
-
         if len(measures) == 0:  # no measures in the piece
             # default only one measure spanning the entire timeline
             warnings.warn("No measures found, assuming only one measure")
@@ -339,6 +327,18 @@ class Part(object):
                 tN = self.last_point.t
 
             measures = np.array([(t0, tN)])
+        else:
+            # correct for anacrusis
+            divs_per_beat = self.inv_beat_map(
+                1 + self.beat_map(0)
+            )  # find the divs per beat in the first measure
+            if (
+                measures[0][1] - measures[0][0]
+                < self.time_signature_map(0)[0] * divs_per_beat
+            ):
+                measures[0][0] = (
+                    measures[0][1] - self.time_signature_map(0)[0] * divs_per_beat
+                )
 
         inter_function = interp1d(
             measures[:, 0],
@@ -376,18 +376,6 @@ class Part(object):
                 for i, m in enumerate(m_it)
             ]
         )
-        # correct for anacrusis
-        divs_per_beat = self.inv_beat_map(
-            1 + self.beat_map(0)
-        )  # find the divs per beat in the first measure
-        if (
-            measures[0][1] - measures[0][0]
-            < self.time_signature_map(0)[0] * divs_per_beat
-        ):
-            measures[0][0] = (
-                measures[0][1] - self.time_signature_map(0)[0] * divs_per_beat
-            )
-
         if len(measures) == 0:  # no measures in the piece
             # default only one measure spanning the entire timeline
             warnings.warn("No measures found, assuming only one measure")
@@ -398,6 +386,18 @@ class Part(object):
                 tN = self.last_point.t
 
             measures = np.array([(t0, tN, 1)])
+        else:
+            # correct for anacrusis
+            divs_per_beat = self.inv_beat_map(
+                1 + self.beat_map(0)
+            )  # find the divs per beat in the first measure
+            if (
+                measures[0][1] - measures[0][0]
+                < self.time_signature_map(0)[0] * divs_per_beat
+            ):
+                measures[0][0] = (
+                    measures[0][1] - self.time_signature_map(0)[0] * divs_per_beat
+                )
 
         inter_function = interp1d(
             measures[:, 0],
